@@ -44,6 +44,10 @@ CLAIMED = {
    text='Same model and quantifiers: when the auction has ended contract() is exactly contract_spec of the bare history - the last bid, x / xx iff a double / redouble follows it, the board\'s vulnerability, declarer = the first member of the last bidder\'s side to have named that strain anywhere in the auction, passed out with no declarer when there is no bid; before the end no contract is reported.',
    design='4/C03', technique='Coq proof: invariant by induction over arbitrary offer lists; correspondence and oracle evaluated by vm_compute',
    note='Trusted: as C01. Print Assumptions: closed under the global context.'),
+ 'C14': dict(
+   text='Theorems for every deal (no sampling, no size bound other than the pack): every deal whose hands are duplicate-free with 13 or 0 cards is written as PBN from any first seat and convert_pbn of that text yields the same four hands; the text has the canonical shape (first seat then clockwise; S.H.D.C; each field exactly the ranks held, strictly high to low; void = empty field; unknown hand = "-"; 16 characters per hand); the 52-slot vectors decode back for any disjoint hands; the JSON list is strictly ascending, lists each card once and decodes back; whatever permutation of the pack the shuffle returns, the dealer yields four disjoint 13-card hands covering the pack. Tie: random, skewed (voids, 7+ suits), partial and odd-sized deals through the real encoders/decoders (numpy form under six dtypes), compared with the model and checked against the statement by an independent checker, both in Coq; dealer under random seeds.',
+   design='4/C14', technique='Coq proof by induction over strings / card lists (all deals); differential correspondence and Spec oracle evaluated by vm_compute',
+   note='Trusted: Coq kernel + vm_compute; drivers/hands.py; Python re for DEAL_PATTERN/HAND_PATTERN mirrored by direct matchers (hand fields with other than three dots are outside the model), random.shuffle = some permutation, numpy indexing. Print Assumptions: closed under the global context.'),
 }
 
 def main():
